@@ -194,7 +194,7 @@ func buildPlainFetch(spec *planSpec, rt *planRuntime, f *fetchSpec) *resolve.Fet
 			OperationType:  ast.OperationTypeQuery,
 		},
 	}
-	if f.MergeM && f.Parent < 0 {
+	if f.MergeM {
 		sf.PostProcessing.MergePath = []string{fmt.Sprintf("m%d", spec.class(f.ID))}
 	}
 	item := spec.itemPath(f.ID)
@@ -222,23 +222,23 @@ func plainDataTree(spec *planSpec) *resolve.Object {
 			roots = append(roots, c)
 		}
 	}
-	var objFor func(id int) *resolve.Object
-	objFor = func(id int) *resolve.Object {
+	var fieldFor func(id int) *resolve.Field
+	fieldFor = func(id int) *resolve.Field {
 		o := &resolve.Object{Path: []string{fmt.Sprintf("f%d", id)}, Nullable: true}
 		o.Fields = append(o.Fields, strField("v", "v"))
 		for _, c := range children[id] {
-			o.Fields = append(o.Fields, &resolve.Field{Name: []byte(fmt.Sprintf("f%d", c)), Value: objFor(c)})
+			o.Fields = append(o.Fields, fieldFor(c))
 		}
-		return o
+		fld := &resolve.Field{Name: []byte(fmt.Sprintf("f%d", id)), Value: o}
+		if spec.get(id).MergeM {
+			m := fmt.Sprintf("m%d", id)
+			fld = &resolve.Field{Name: []byte(m), Value: &resolve.Object{Path: []string{m}, Nullable: true, Fields: []*resolve.Field{fld}}}
+		}
+		return fld
 	}
 	root := &resolve.Object{}
 	for _, r := range roots {
-		fld := &resolve.Field{Name: []byte(fmt.Sprintf("f%d", r)), Value: objFor(r)}
-		if spec.get(r).MergeM {
-			m := fmt.Sprintf("m%d", r)
-			fld = &resolve.Field{Name: []byte(m), Value: &resolve.Object{Path: []string{m}, Nullable: true, Fields: []*resolve.Field{fld}}}
-		}
-		root.Fields = append(root.Fields, fld)
+		root.Fields = append(root.Fields, fieldFor(r))
 	}
 	return root
 }
@@ -334,7 +334,7 @@ func process(spec *planSpec, o optSet, eager bool) (*resolve.GraphQLResponse, *p
 
 // processAsSubscription runs the same plan as the response part of a subscription plan: the
 // root of the fetch tree carries the trigger (fetch id triggerID, not part of the tree) and the
-// fetches without dependencies depend on the trigger's fetch id, as in planner output.
+// root-level fetches without dependencies depend on the trigger's fetch id, as in planner output.
 func processAsSubscription(spec *planSpec, o optSet, triggerID int) (*resolve.GraphQLResponse, error) {
 	resp, _, err := buildResponse(spec, false)
 	if err != nil {
@@ -342,7 +342,9 @@ func processAsSubscription(spec *planSpec, o optSet, triggerID int) (*resolve.Gr
 	}
 	for _, item := range resp.RawFetches {
 		d := item.Fetch.Dependencies()
-		if len(d.DependsOnFetchIDs) == 0 {
+		// only root-level fetches: a nested fetch without declared dependencies is the case the
+		// response-path rule exists for, and giving it a dependency would switch that rule off
+		if len(d.DependsOnFetchIDs) == 0 && item.ResponsePath == "" {
 			d.DependsOnFetchIDs = []int{triggerID}
 		}
 	}
